@@ -4,5 +4,5 @@
 From Coq Require Import Extraction ExtrOcamlBasic.
 From BS Require Import Base CsvSpec CsvModel CsvEncodings.
 Extraction Language OCaml.
-Extraction "../ml/gen/csv_model.ml" csv_save writer_run with_keys csv_load csv_load_stream csv_load_encoded chunk_size utf8_detected
+Extraction "../ml/gen/csv_model.ml" csv_save writer_run with_keys csv_load csv_load_stream csv_load_encoded csv_load_hist csv_load_stream_hist chunk_size utf8_detected
   validate_separator rfc_parse render select.
